@@ -1414,14 +1414,198 @@ theorem ownerMro_sub (cs : List (ClassDecl V)) : ∀ m ∈ declsOf (ownerMro cs)
   obtain ⟨c, hc, hmc⟩ := hm
   exact ⟨c, (List.dropWhile_sublist _).subset hc, hmc⟩
 
-theorem resolve_closed (T : Tbl V) (ds : List (Member V)) (hsub : ∀ m ∈ ds, m ∈ declsOf T.mro) :
+theorem plainPrefix_sub (cs : List (ClassDecl V)) :
+    ∀ m ∈ declsOf (cs.takeWhile (fun c => !c.spec)), m ∈ declsOf cs := by
+  intro m hm
+  unfold declsOf at *
+  rw [List.mem_flatMap] at hm ⊢
+  obtain ⟨c, hc, hmc⟩ := hm
+  exact ⟨c, (List.takeWhile_sublist _).subset hc, hmc⟩
+
+/-! ### `metadata.attrs` along the hierarchy (`effSpec`) -/
+
+theorem declsOf_cons (c : ClassDecl V) (rest : List (ClassDecl V)) :
+    declsOf (c :: rest) = c.members ++ declsOf rest := by
+  simp [declsOf]
+
+/-- a managed name is declared somewhere in the hierarchy -/
+theorem effSpec_some_mem (h : Bool) : ∀ (cs : List (ClassDecl V)) (n : Name) (sp : Eff V),
+    effSpec h cs n = some sp → n ∈ (declsOf cs).map (·.name) := by
+  intro cs
+  induction cs with
+  | nil => intro n sp hs; simp [effSpec] at hs
+  | cons c rest ih =>
+    intro n sp hs
+    rw [declsOf_cons, List.map_append, List.mem_append]
+    unfold effSpec at hs
+    split at hs
+    · exact Or.inr (ih n sp hs)
+    · rename_i m hl
+      obtain ⟨hmem, hname⟩ := lookupMember_some hl
+      exact Or.inl (List.mem_map.2 ⟨m, hmem, hname⟩)
+
+/-- whether a name is managed does not depend on whose `invalidated_by` counts -/
+theorem effSpec_isSome (h h' : Bool) : ∀ (cs : List (ClassDecl V)) (n : Name),
+    (effSpec h cs n).isSome = (effSpec h' cs n).isSome := by
+  intro cs
+  induction cs with
+  | nil => intro n; rfl
+  | cons c rest ih =>
+    intro n
+    unfold effSpec
+    split
+    · exact ih n
+    · split
+      · simp [ih n]
+      · split
+        · rfl
+        · simp [ih n]
+
+/-- If the undecorated classes declare no `invalidated_by`, it makes no difference whether their
+declarations count. -/
+theorem effSpec_honour_irrelevant : ∀ (cs : List (ClassDecl V))
+    (hs : ∀ c ∈ cs, c.spec = false → ∀ m ∈ c.members, m.invBy = []) (n : Name),
+    effSpec true cs n = effSpec false cs n := by
+  intro cs
+  induction cs with
+  | nil => intro _ n; rfl
+  | cons c rest ih =>
+    intro hs n
+    have ih' := ih (fun c' hc' => hs c' (List.mem_cons_of_mem _ hc')) n
+    unfold effSpec
+    split
+    · exact ih'
+    · rename_i m hl
+      split
+      · rename_i hc
+        have hinv : m.invBy = [] :=
+          hs c (List.mem_cons_self ..) (by simpa using hc) m (lookupMember_some hl).1
+        rw [ih']
+        congr 1
+        funext sp
+        unfold plainOverride
+        split <;> simp [hinv, ownOr]
+      · split
+        · rfl
+        · rw [ih']
+
+theorem lookupMember_effList (f : Name → Option (Eff V)) : ∀ (l : List Name) (n : Name),
+    lookupMember (l.filterMap (fun x => (f x).map (effMember x))) n =
+      if n ∈ l then (f n).map (effMember n) else none := by
+  intro l
+  induction l with
+  | nil => intro n; simp [lookupMember]
+  | cons x xs ih =>
+    intro n
+    rw [List.filterMap_cons]
+    cases hx : f x with
+    | none =>
+      simp only [Option.map_none]
+      rw [ih n]
+      by_cases hxn : n = x
+      · subst hxn; simp [hx]
+      · simp [hxn]
+    | some sp =>
+      simp only [Option.map_some]
+      rw [lookupMember_cons]
+      by_cases hxn : x = n
+      · subst hxn; simp [effMember, hx]
+      · have : (effMember x sp).name ≠ n := by simpa [effMember] using hxn
+        rw [if_neg this, ih n]
+        have hnx : n ≠ x := fun h => hxn h.symm
+        simp [hnx]
+
+/-- `metadata.attrs.get(n)` as a declaration -/
+theorem lookupMember_effManaged (h : Bool) (cs : List (ClassDecl V)) (n : Name) :
+    lookupMember (effManaged h cs) n = (effSpec h cs n).map (effMember n) := by
+  unfold effManaged
+  rw [lookupMember_effList]
+  split
+  · rfl
+  · rename_i hn
+    rw [mem_dedup] at hn
+    cases hs : effSpec h cs n with
+    | none => rfl
+    | some sp => exact absurd (effSpec_some_mem h cs n sp hs) hn
+
+theorem lookupMember_append (l1 l2 : List (Member V)) (n : Name) :
+    lookupMember (l1 ++ l2) n = (lookupMember l1 n).or (lookupMember l2 n) := by
+  unfold lookupMember
+  rw [List.find?_append]
+
+theorem lookupMember_none_of_names {ds : List (Member V)} {n : Name}
+    (h : n ∉ ds.map (·.name)) : lookupMember ds n = none := by
+  unfold lookupMember
+  rw [List.find?_eq_none]
+  intro m hm hmn
+  exact h (List.mem_map.2 ⟨m, hm, by simpa using hmn⟩)
+
+theorem lookupMember_bindingDecls (cs : List (ClassDecl V)) (n : Name) :
+    lookupMember (bindingDecls cs) n = clsVal (declsOf cs) n := by
+  unfold lookupMember bindingDecls clsVal
+  rw [List.find?_filter]
+  congr 1
+  funext m
+  by_cases hmn : m.name = n <;> simp [hmn]
+
+theorem effManaged_names (h : Bool) (cs : List (ClassDecl V)) :
+    ∀ m ∈ effManaged h cs, m.name ∈ (declsOf cs).map (·.name) := by
+  intro m hm
+  unfold effManaged at hm
+  rw [List.mem_filterMap] at hm
+  obtain ⟨n, hn, hf⟩ := hm
+  rw [mem_dedup] at hn
+  cases hs : effSpec h cs n with
+  | none => simp [hs] at hf
+  | some sp =>
+    simp [hs] at hf
+    subst hf
+    exact hn
+
+theorem effOwn_names (hh : Bool) (cs : List (ClassDecl V)) :
+    ∀ m ∈ effOwn hh cs, m.name ∈ (declsOf (ownerMro cs)).map (·.name) := by
+  intro m hm
+  unfold effOwn at hm
+  rcases List.mem_append.1 hm with h | h
+  · exact effManaged_names _ _ m h
+  · exact List.mem_map.2 ⟨m, (List.mem_filter.1 h).1, rfl⟩
+
+theorem effOwn_names' (hh : Bool) (cs : List (ClassDecl V)) :
+    ∀ m ∈ effOwn hh cs, m.name ∈ (declsOf cs).map (·.name) := by
+  intro m hm
+  obtain ⟨m', hm', hn⟩ := List.mem_map.1 (effOwn_names hh cs m hm)
+  exact List.mem_map.2 ⟨m', ownerMro_sub cs m' hm', hn⟩
+
+theorem lookupMember_effOwn_none (hh : Bool) {cs : List (ClassDecl V)} {n : Name}
+    (h : lookupMember (declsOf (ownerMro cs)) n = none) : lookupMember (effOwn hh cs) n = none := by
+  cases hl : lookupMember (effOwn hh cs) n with
+  | none => rfl
+  | some m =>
+    obtain ⟨hmem, hname⟩ := lookupMember_some hl
+    obtain ⟨m', hm', hn⟩ := List.mem_map.1 (effOwn_names hh cs m hmem)
+    unfold lookupMember at h
+    rw [List.find?_eq_none] at h
+    have := h m' hm'
+    simp at this
+    exact absurd (hn.trans hname) this
+
+theorem effAll_names (hh : Bool) (cs : List (ClassDecl V)) :
+    ∀ m ∈ effAll hh cs, m.name ∈ (declsOf cs).map (·.name) := by
+  intro m hm
+  unfold effAll at hm
+  rcases List.mem_append.1 hm with h | h
+  · exact List.mem_map.2 ⟨m, plainPrefix_sub cs m (List.mem_filter.1 h).1, rfl⟩
+  · exact effOwn_names' hh cs m h
+
+theorem resolve_closed (T : Tbl V) (ds : List (Member V))
+    (hsub : ∀ m ∈ ds, m.name ∈ (declsOf T.mro).map (·.name)) :
     ∀ k d, d ∈ (T.resolveWith ds).invMap k → d ∈ (T.resolveWith ds).names := by
   intro k d h
   simp only [Tbl.resolveWith] at h ⊢
   obtain ⟨m, hm, _⟩ := mem_invMapOf_iff'.1 h
   obtain ⟨hmem, hname⟩ := lookupMember_some hm
-  rw [mem_dedup, List.mem_map]
-  exact ⟨m, hsub m hmem, hname⟩
+  rw [mem_dedup, ← hname]
+  exact hsub m hmem
 
 theorem resolve_managedComplete (T : Tbl V) (ds : List (Member V)) :
     ∀ z, (dfltOf (T.resolveWith ds) z).isSome → z ∈ (T.resolveWith ds).managedNames := by
@@ -1432,18 +1616,48 @@ theorem resolve_managedComplete (T : Tbl V) (ds : List (Member V)) :
     simp only [Tbl.resolveWith] at hm ⊢
     rw [List.mem_filter]
     refine ⟨?_, hm⟩
-    rw [List.mem_reverse, mem_dedup, List.mem_reverse, List.mem_map]
-    unfold managedIn at hm
-    split at hm
-    · rename_i m hl
-      obtain ⟨hmem, hname⟩ := lookupMember_some hl
-      refine ⟨m, ?_, hname⟩
+    rw [List.mem_reverse, mem_dedup, List.mem_reverse]
+    cases hs : effSpec false (ownerMro T.mro) z with
+    | none => simp [hs] at hm
+    | some sp =>
+      obtain ⟨m, hmem, hname⟩ := List.mem_map.1 (effSpec_some_mem _ _ z sp hs)
+      refine List.mem_map.2 ⟨m, ?_, hname⟩
       unfold declsOf at hmem ⊢
       rw [List.mem_flatMap] at hmem ⊢
       obtain ⟨c, hc, hmc⟩ := hmem
       exact ⟨c, List.mem_reverse.2 hc, hmc⟩
-    · cases hm
   · cases h
+
+/-- the part of `invalidation_map` that comes from `metadata.attrs` -/
+theorem lookupMember_effOwn_managed {hh : Bool} {cs : List (ClassDecl V)} {d : Name} {sp : Eff V}
+    (h : effSpec hh (ownerMro cs) d = some sp) : lookupMember (effOwn hh cs) d = some (effMember d sp) := by
+  unfold effOwn
+  rw [lookupMember_append, lookupMember_effManaged, h]
+  rfl
+
+/-- … and the part that comes from the member scan -/
+theorem lookupMember_effOwn_unmanaged {hh : Bool} {cs : List (ClassDecl V)} {d : Name}
+    (h : effSpec hh (ownerMro cs) d = none) : lookupMember (effOwn hh cs) d = clsVal (declsOf (ownerMro cs)) d := by
+  unfold effOwn
+  rw [lookupMember_append, lookupMember_effManaged, h, lookupMember_bindingDecls]
+  rfl
+
+theorem find?_and {α : Type} (p q : α → Bool) : ∀ (l : List α) (m : α),
+    l.find? p = some m → q m = true → l.find? (fun x => p x && q x) = some m := by
+  intro l
+  induction l with
+  | nil => intro m h; simp at h
+  | cons x xs ih =>
+    intro m h hq
+    rw [List.find?_cons] at h ⊢
+    by_cases hp : p x = true
+    · simp only [hp] at h
+      cases h
+      simp [hp, hq]
+    · have hp' : p x = false := by simpa using hp
+      simp only [hp'] at h
+      simp only [hp', Bool.false_and]
+      exact ih m h hq
 
 /-- A rank that never increases along a dependency edge and strictly decreases into a defaulted
 attribute rules out cycles through defaulted attributes. -/
@@ -1500,7 +1714,7 @@ theorem invalidateTop_order {R : RTbl V} (wf : WF R) (im' : Key → List Name)
 /-- `class S` (spec): `a: int = 1`; `class P(S)` (undecorated): cached property `q`,
 `invalidated_by=['a']`, returning `a`. -/
 def witnessT : Tbl Int :=
-  { mro := [⟨false, [⟨1, .prop true true false, [.nm 0]⟩]⟩, ⟨true, [⟨0, .attr (some 1), []⟩]⟩]
+  { mro := [⟨false, [⟨1, .prop true true false, [.nm 0], .std⟩]⟩, ⟨true, [⟨0, .attr (some 1), [], .std⟩]⟩]
     getter := fun p f => if p = 1 then (f 0).getD 0 else 0
     okType := fun _ _ => true
     ctor0 := fun _ => some 0 }
@@ -1522,17 +1736,22 @@ theorem witness_stale : witnessG.d 1 = some (Tag.cache, 1) ∧ witnessT.full.get
 theorem witness_edge : Edge witnessT.full 0 1 := by
   unfold Edge; decide
 
+theorem witness_effAll : effAll true witnessT.mro =
+    [⟨1, .prop true true false, [.nm 0], .std⟩, ⟨0, .attr (some 1), [], .std⟩, ⟨0, .attr (some 1), [], .std⟩] := by
+  rfl
+
 theorem witness_edges (a d : Name) (h : Edge witnessT.full a d) : a = 0 ∧ d = 1 := by
   obtain ⟨h1, _⟩ := edge_iff.1 h
   simp only [Tbl.full, Tbl.resolveWith] at h1
   rw [mem_invMapOf_iff', mem_invMapOf_iff'] at h1
+  rw [witness_effAll] at h1
   rcases h1 with ⟨m, hm, hk⟩ | ⟨m, hm, hk⟩ <;>
   · obtain ⟨hmem, hname⟩ := lookupMember_some hm
-    simp [witnessT, declsOf] at hmem
-    rcases hmem with rfl | rfl <;> simp_all
+    simp at hmem
+    rcases hmem with rfl | rfl | rfl <;> simp_all
 
 theorem witness_wf : WF witnessT.full :=
-  ⟨resolve_closed _ _ (fun _ h => h),
+  ⟨resolve_closed _ _ (effAll_names _ _),
    acyc_of_rank (fun n => if n = 0 then 1 else 0) (by
      intro a d h
      obtain ⟨rfl, rfl⟩ := witness_edges a d h
@@ -1549,40 +1768,117 @@ theorem witness_getterLocal : GetterLocal witnessT.full := by
   · simp [hp]
 
 
+/-! ## the counter-witness of KF-C11-plain-middle-override: a cached property that an undecorated class
+BETWEEN two spec classes puts over a managed attribute -/
+
+/-- `class S0` (spec): `a: int = 1`, `b: int = 2`, `n: int = Attr(default=3, invalidated_by=['a'])`;
+`class P(S0)` (undecorated): cached property `n`, `invalidated_by=['b']`, returning `b * 10`;
+`class S2(P)` (spec): nothing. -/
+def witness2T : Tbl Int :=
+  { mro := [⟨true, []⟩, ⟨false, [⟨2, .prop true true false, [.nm 1], .std⟩]⟩,
+            ⟨true, [⟨0, .attr (some 1), [], .std⟩, ⟨1, .attr (some 2), [], .std⟩,
+                     ⟨2, .attr (some 3), [.nm 0], .viaAttr⟩]⟩]
+    getter := fun p f => if p = 2 then (f 1).getD 0 * 10 else 0
+    okType := fun _ _ => true
+    ctor0 := fun _ => some 0 }
+
+/-- `x = S2(); x.n; x.b = 5` -/
+def witness2G : GInst Int :=
+  gnext witness2T.code (gnext witness2T.code
+    ⟨dset (dset Dict.empty 0 (Tag.user, 1)) 1 (Tag.user, 2), fun _ => 0, 0⟩
+    (.read 2) true true) (.setattr 1 5) true true
+
+theorem witness2_construct :
+    construct witness2T.code [] = .ok (dset (dset Dict.empty 0 (Tag.user, 1)) 1 (Tag.user, 2)) := rfl
+
+theorem witness2_lineage : Lineage witness2T.code witness2G :=
+  .step _ _ _ _ (.step _ _ _ _ (.init [] _ witness2_construct))
+
+/-- after `x.b = 5` the slot of `n` still holds the value computed from `b = 2` -/
+theorem witness2_stale :
+    witness2G.d 2 = some (Tag.cache, 20) ∧ witness2T.full.getter 2 (nc witness2G.d) = 50 := by
+  decide
+
+theorem witness2_effAll : effAll true witness2T.mro =
+    [⟨0, .attr (some 1), [], .std⟩, ⟨1, .attr (some 2), [], .std⟩, ⟨2, .prop true true true, [.nm 1], .std⟩,
+     ⟨2, .prop true true false, [.nm 1], .std⟩,
+     ⟨0, .attr (some 1), [], .std⟩, ⟨1, .attr (some 2), [], .std⟩, ⟨2, .attr (some 3), [.nm 0], .viaAttr⟩] := by
+  rfl
+
+theorem witness2_edge : Edge witness2T.full 1 2 := by
+  unfold Edge; decide
+
+theorem witness2_edges (a d : Name) (h : Edge witness2T.full a d) : a = 1 ∧ d = 2 := by
+  obtain ⟨h1, _⟩ := edge_iff.1 h
+  simp only [Tbl.full, Tbl.resolveWith] at h1
+  rw [mem_invMapOf_iff', mem_invMapOf_iff'] at h1
+  rw [witness2_effAll] at h1
+  rcases h1 with ⟨m, hm, hk⟩ | ⟨m, hm, hk⟩ <;>
+  · obtain ⟨hmem, hname⟩ := lookupMember_some hm
+    simp [lookupMember, List.find?] at hm
+    split at hm
+    · cases hm; simp at hk
+    · split at hm
+      · cases hm; simp at hk
+      · split at hm
+        · cases hm; simp_all
+        · simp_all
+
+theorem witness2_wf : WF witness2T.full :=
+  ⟨resolve_closed _ _ (effAll_names _ _),
+   acyc_of_rank (fun n => if n = 1 then 1 else 0) (by
+     intro a d h
+     obtain ⟨rfl, rfl⟩ := witness2_edges a d h
+     refine ⟨by decide, fun _ => by decide⟩),
+   resolve_managedComplete _ _⟩
+
+theorem witness2_getterLocal : GetterLocal witness2T.full := by
+  intro p f g h
+  simp only [Tbl.full, Tbl.resolveWith, witness2T]
+  by_cases hp : p = 2
+  · subst hp
+    have := h 1 (.single witness2_edge)
+    simp [this]
+  · simp [hp]
+
+
 /-! ## a non-trivial well-formed table (non-vacuity) -/
 
 /-- `a: int = 1`; `z: int = Attr(default=7, invalidated_by=['a'])`; cached `p` (invalidated_by z,
 returns a + z); cached `w`, `w2` (invalidated_by '*': a cycle without defaults). -/
 def exT : Tbl Int :=
-  { mro := [⟨true, [⟨0, .attr (some 1), []⟩, ⟨1, .attr (some 7), [.nm 0]⟩,
-                     ⟨2, .prop true true false, [.nm 1]⟩, ⟨3, .prop true true false, [.star]⟩,
-                     ⟨4, .prop true false false, [.star]⟩]⟩]
+  { mro := [⟨true, [⟨0, .attr (some 1), [], .std⟩, ⟨1, .attr (some 7), [.nm 0], .viaAttr⟩,
+                     ⟨2, .prop true true false, [.nm 1], .std⟩, ⟨3, .prop true true false, [.star], .std⟩,
+                     ⟨4, .prop true false false, [.star], .std⟩]⟩]
     getter := fun p f => if p = 2 then (f 0).getD 0 + (f 1).getD 0 else 0
     okType := fun _ _ => true
     ctor0 := fun _ => some 0 }
+
+theorem ex_effOwn : effOwn false exT.mro =
+    [⟨0, .attr (some 1), [], .std⟩, ⟨1, .attr (some 7), [.nm 0], .std⟩,
+     ⟨0, .attr (some 1), [], .std⟩, ⟨1, .attr (some 7), [.nm 0], .viaAttr⟩,
+     ⟨2, .prop true true false, [.nm 1], .std⟩, ⟨3, .prop true true false, [.star], .std⟩,
+     ⟨4, .prop true false false, [.star], .std⟩] := by
+  rfl
 
 theorem ex_edges (a d : Name) (h : Edge exT.code a d) :
     (a = 0 ∧ d = 1) ∨ (a = 1 ∧ d = 2) ∨ (d = 3 ∧ a ≠ 3) ∨ (d = 4 ∧ a ≠ 4) := by
   obtain ⟨h1, hne⟩ := edge_iff.1 h
   simp only [Tbl.code, Tbl.resolveWith] at h1
-  rw [mem_invMapOf_iff', mem_invMapOf_iff'] at h1
+  rw [mem_invMapOf_iff', mem_invMapOf_iff', ex_effOwn] at h1
   rcases h1 with ⟨m, hm, hk⟩ | ⟨m, hm, hk⟩ <;>
   · obtain ⟨hmem, hname⟩ := lookupMember_some hm
-    simp [exT, declsOf, ownerMro, List.dropWhile] at hmem
-    rcases hmem with rfl | rfl | rfl | rfl | rfl <;> simp at hk hname <;> subst hname <;> first | (subst hk; simp) | (simp; exact fun h => hne h.symm)
+    simp at hmem
+    rcases hmem with rfl | rfl | rfl | rfl | rfl | rfl | rfl | rfl | rfl | rfl <;> simp at hk hname <;> subst hname <;> first | (subst hk; simp) | (simp; exact fun h => hne h.symm)
 
 theorem ex_dflt (d : Name) (h : (dfltOf exT.code d).isSome) : d = 0 ∨ d = 1 := by
-  rcases d with _ | _ | _ | _ | _ | n
-  · exact Or.inl rfl
-  · exact Or.inr rfl
-  all_goals
-    exfalso
-    revert h
-    simp [dfltOf, Tbl.code, Tbl.resolveWith, managedIn, lookupMember, exT, declsOf, ownerMro, List.dropWhile,
-      isManagedKind]
+  have hm : d ∈ exT.code.managedNames := resolve_managedComplete _ _ d h
+  have hn : exT.code.managedNames = [0, 1] := by rfl
+  rw [hn] at hm
+  simpa using hm
 
 theorem ex_wf : WF exT.code :=
-  ⟨resolve_closed _ _ (ownerMro_sub _),
+  ⟨resolve_closed _ _ (effOwn_names' _ _),
    acyc_of_rank (fun n => if n = 0 then 3 else if n = 1 then 2 else if n = 2 then 1 else 0) (by
      intro a d h
      rcases ex_edges a d h with ⟨rfl, rfl⟩ | ⟨rfl, rfl⟩ | ⟨rfl, _⟩ | ⟨rfl, _⟩
